@@ -160,6 +160,22 @@ def durations(bound):
                     v = ((h * 60 + m) * 60 + s) * 1000000 + u; us.add(v); us.add(-v)
     return sorted(us)
 
+def composite_fields(SPEC):
+    """object-valued settings: the value of a field is what was written -- an explicitly EMPTY multi field is the empty set (not the field's non-empty default), an absent
+    or None field is the default, a list is that set; and the JSON form of the object loads back to an equal object"""
+    import typing
+    Auth = ctypes.ConfigTypeSpec(name='cfg::AuthX', fields=fmap(Field('name', str, unique=True), Field('user', typing.FrozenSet[str], default=frozenset({'*'}))))
+    cases = [({'name': 'n'}, frozenset({'*'})), ({'name': 'n', 'user': None}, frozenset({'*'})), ({'name': 'n', 'user': []}, frozenset()),
+             ({'name': 'n', 'user': ['a']}, frozenset({'a'})), ({'name': 'n', 'user': ['a', 'b']}, frozenset({'a', 'b'})), ({'name': 'n', 'user': 'solo'}, frozenset({'solo'}))]
+    n = 0
+    for data, want in cases:
+        n += 1
+        try: obj = ctypes.CompositeConfigType.from_pyvalue(dict(data), tspec=Auth, spec=SPEC)
+        except Exception as e: return n, dict(problem='from_pyvalue(%r) raised %r' % (data, e))
+        got = getattr(obj, 'user', None)
+        if got != want: return n, dict(problem='object written as %r: field `user` is %r, expected %r (an explicitly empty set is not "absent")' % (data, got, want))
+    return n, None
+
 def compiled_ops(SPEC):
     """the step from a compiled CONFIGURE ... SET to the operation: the REAL ir.staeval.evaluate_to_config_op on hand-built IR (a literal, `{}`, a set literal), then the real
     Operation.apply / lookup -- the effective value of a multi-valued setting is exactly the set of the literals written (one falsy literal is still one element)"""
@@ -202,6 +218,9 @@ def main():
     res = dict(histories=0, durations=0, memories=0, failure=None)
     res['compiled'], cf = compiled_ops(SPEC)
     if cf: res['failure'] = dict(kind='compiled-set', **cf)
+    if not res['failure']:
+        res['composite'], cf = composite_fields(SPEC)
+        if cf: res['failure'] = dict(kind='object-field', **cf)
     for _ in range(nh if not res['failure'] else 0):
         h = [gen_step(rnd) for _ in range(rnd.randint(1, maxlen))]
         res['histories'] += 1
